@@ -78,6 +78,7 @@ MISSED_FIRST = {
     "C17-R2": "(added after reading the report) same, as a grammar sentence",
     # ---- sixth round (S): one change per property for ten properties, evaluated blind; these two were missed
     "C08-S1": "session operations delivered every message whole (the chunked unbind was visible to C02 only as a difference in outcome kind); every receive operation now also exists as a delivery in two pieces with a symbolic cut ('@s' variants, inductive step and BMC depth 2) and must obey the same rules as a whole delivery",
+    "C19-S1": "the two sessions of a schedule only ever registered the same custom type (or one of them none); added schedules in which they register different custom controls and each decodes the other's type (a decoder cache keyed by OID and number of registrations is shared between them)",
     "C12-S1": "no more than a few dozen octets were ever pending; added sequences with a message of more than ten thousand octets pending that is drained in pieces on and around thresholds (0, 1 KiB, 4 KiB, 6000, each + 0..2 symbolic) - the change compacts its buffer after 4096 consumed octets and keeps a stale offset",
     "C11-S1": "the joint runs only cut deliveries in halves or single octets (C02 and C06 reported the same kind of change through their own cut enumeration); added two scenarios with a long and a short message in the pipe delivered in three chunks whose two cut positions are solver variables",
     "C18-R2": "missed at first (the engine had no cost model for big-integer arithmetic); added an engine cost obligation - a left shift by an input-chosen amount that the path condition lets exceed 2**20 bits ends the path, the witness is confirmed on the real package in a subprocess under a 1.5 GiB address-space limit - and C18 units that append an element with a six-octet tag number to every constructed value of four messages",
